@@ -4,6 +4,7 @@
 //   solve : a session of apply()/correct() calls on ONE real solver object (PCG, Richardson, PCR, PMR, BiCGStab) at the
 //           exact rational scalar Q, with NoneFilter / UnitFilter and without / with a (mock, arbitrary linear,
 //           possibly failing) preconditioner
+//   solved: PCG / PCR / PCGNR / BiCGStab / FGMRES(4) sessions at double (floating-point conformance of the residual clause)
 #include <exact_q.hpp>
 #include <forkcase.hpp>
 #include <kernel/lafem/dense_vector.hpp>
@@ -15,6 +16,8 @@
 #include <kernel/solver/richardson.hpp>
 #include <kernel/solver/pcr.hpp>
 #include <kernel/solver/pmr.hpp>
+#include <kernel/solver/pcgnr.hpp>
+#include <kernel/solver/fgmres.hpp>
 #include <kernel/solver/bicgstab.hpp>
 #include <cmath>
 #include <memory>
@@ -135,7 +138,8 @@ typedef LAFEM::SparseMatrixCSR<Q, Index> QMat;
 typedef LAFEM::NoneFilter<Q, Index> QNone;
 typedef LAFEM::UnitFilter<Q, Index> QUnit;
 
-// mock preconditioner: an arbitrary dense linear map; the fail_at-th call (1-based, 0 = never) reports failure
+// mock preconditioner: an arbitrary dense linear map; the fail_at-th call (1-based, 0 = never) reports failure,
+// and so does every call whose input vector starts with the sentinel value 7777
 class MockPrecond : public Solver::SolverBase<QVec>
 {
 public:
@@ -146,6 +150,8 @@ public:
   {
     ++calls;
     if(fail_at != 0 && calls == fail_at) return Solver::Status::aborted;
+    // data-dependent failure: the preconditioner rejects a defect whose first entry is the sentinel 7777
+    if(n > 0 && def(0) == Q(7777)) return Solver::Status::aborted;
     for(Index i = 0; i < n; ++i)
     {
       Q s(0);
@@ -168,6 +174,12 @@ public:
     Q r = Base_::_calc_def_norm(d, x);
     hist.push_back(r);
     return r;
+  }
+  // solvers with overlapped reductions hand a precomputed norm to the control layer
+  virtual Solver::Status _update_defect(const Q d) override
+  {
+    hist.push_back(d);
+    return Base_::_update_defect(d);
   }
 };
 
@@ -249,6 +261,12 @@ static void solve_with_filter(const std::string& kind, const QMat& a, const Filt
     Logged<Solver::PMR<QMat, Filter_>> s(a, filter, pre);
     run_session(s, pre.get(), g, n, c, o);
   }
+  else if(kind == "pcgnr")
+  {
+    // one preconditioner object as left and right preconditioner: its call counter covers both
+    Logged<Solver::PCGNR<QMat, Filter_>> s(a, filter, pre, pre);
+    run_session(s, pre.get(), g, n, c, o);
+  }
   else if(kind == "bicgstab")
   {
     Logged<Solver::BiCGStab<QMat, Filter_>> s(a, filter, pre);
@@ -296,12 +314,133 @@ static void op_solve(Cur& c, std::ostream& o)
   std::cout.rdbuf(old);
 }
 
+// ------------------------------------------------------------------------------------------------------------------
+// solved: the same sessions at double (T3 conformance: the oracle recomputes the true residual of the returned doubles
+// in exact arithmetic); matrix, right-hand sides and start vectors must be exactly representable
+// ------------------------------------------------------------------------------------------------------------------
+
+typedef LAFEM::SparseMatrixCSR<double, Index> DMat;
+typedef LAFEM::NoneFilter<double, Index> DNone;
+typedef LAFEM::UnitFilter<double, Index> DUnit;
+
+static double read_exact(Cur& c)
+{
+  Q q = Q::parse(c.str());
+  double d = q.v().get_d();
+  if(!(Q(d) == q)) { std::cerr << "\n>>> FATAL ERROR: harness: value not exactly representable as double\n"; std::abort(); }
+  return d;
+}
+static double read_near(Cur& c) { return Q::parse(c.str()).v().get_d(); }
+
+class MockPrecondD : public Solver::SolverBase<DVec>
+{
+public:
+  Index n; std::vector<double> m;
+  MockPrecondD(Index n_, const std::vector<double>& m_) : n(n_), m(m_) {}
+  virtual String name() const override { return "MockPrecondD"; }
+  virtual Solver::Status apply(DVec& cor, const DVec& def) override
+  {
+    for(Index i = 0; i < n; ++i)
+    {
+      double s = 0.0;
+      for(Index j = 0; j < n; ++j) s += m[i * n + j] * def(j);
+      cor(i, s);
+    }
+    return Solver::Status::success;
+  }
+};
+
+template<typename Solver_>
+static void run_session_d(Solver_& s, Index n, Cur& c, std::ostream& o)
+{
+  s.set_tol_rel(read_near(c)); s.set_tol_abs(read_near(c)); s.set_tol_abs_low(read_near(c));
+  s.set_div_rel(read_near(c)); s.set_div_abs(read_near(c)); s.set_stag_rate(read_near(c));
+  s.set_min_iter(c.idx()); s.set_max_iter(c.idx()); s.set_min_stag_iter(c.idx());
+  s.skip_defect_calc(c.idx() != 0);
+  (void)read_near(c); // omega (unused)
+  s.init();
+  Index ns = c.idx();
+  for(Index k = 0; k < ns; ++k)
+  {
+    std::string mode = c.str();
+    DVec x(n), b(n);
+    std::vector<double> b0(n);
+    for(Index i = 0; i < n; ++i) x(i, read_exact(c));
+    for(Index i = 0; i < n; ++i) { b0[i] = read_exact(c); b(i, b0[i]); }
+    Index re = c.idx();
+    if(re == 1) { s.done_numeric(); s.init_numeric(); }
+    else if(re == 2) { s.done(); s.init(); }
+    Solver::Status st = (mode == "a") ? s.apply(x, b) : s.correct(x, b);
+    bool rhs_ok = true;
+    for(Index i = 0; i < n; ++i) rhs_ok = rhs_ok && (b(i) == b0[i]);
+    if(k > 0) o << " | ";
+    o << "R " << status_code(st) << " " << s.get_num_iter() << " " << show_dbl(s.get_def_initial()) << " "
+      << show_dbl(s.get_def_final()) << " " << n;
+    for(Index i = 0; i < n; ++i) o << " " << show_dbl(x(i));
+    o << " " << (rhs_ok ? 1 : 0) << " " << status_code(s.get_status());
+  }
+  s.done();
+}
+
+template<typename Filter_>
+static void solved_with_filter(const std::string& kind, const DMat& a, const Filter_& filter, Cur& c, std::ostream& o, Index n)
+{
+  std::shared_ptr<MockPrecondD> pre;
+  std::string pk = c.str();
+  if(pk == "mat")
+  {
+    std::vector<double> m(n * n);
+    for(auto& x : m) x = read_near(c);
+    (void)c.idx();
+    pre = std::make_shared<MockPrecondD>(n, m);
+  }
+  if(kind == "pcg") { Solver::PCG<DMat, Filter_> s(a, filter, pre); run_session_d(s, n, c, o); }
+  else if(kind == "bicgstab") { Solver::BiCGStab<DMat, Filter_> s(a, filter, pre); run_session_d(s, n, c, o); }
+  else if(kind == "pcr") { Solver::PCR<DMat, Filter_> s(a, filter, pre); run_session_d(s, n, c, o); }
+  else if(kind == "pcgnr") { Solver::PCGNR<DMat, Filter_> s(a, filter, pre, pre); run_session_d(s, n, c, o); }
+  else if(kind == "fgmres") { Solver::FGMRES<DMat, Filter_> s(a, filter, Index(4), 0.0, pre); run_session_d(s, n, c, o); }
+  else o << "BAD-OP";
+}
+
+static void op_solved(Cur& c, std::ostream& o)
+{
+  std::ostringstream sink;
+  std::streambuf* old = std::cout.rdbuf(sink.rdbuf());
+  std::string kind = c.str();
+  Index n = c.idx();
+  std::vector<double> vals; std::vector<Index> cols, ptr(1, 0);
+  for(Index i = 0; i < n; ++i)
+  {
+    for(Index j = 0; j < n; ++j)
+    {
+      double v = read_exact(c);
+      if(v != 0.0) { vals.push_back(v); cols.push_back(j); }
+    }
+    ptr.push_back(Index(vals.size()));
+  }
+  DVec v_val(Index(vals.size())); IVec v_col(Index(cols.size())); IVec v_ptr(Index(ptr.size()));
+  for(Index i = 0; i < vals.size(); ++i) { v_val(i, vals[i]); v_col(i, cols[i]); }
+  for(Index i = 0; i < ptr.size(); ++i) v_ptr(i, ptr[i]);
+  DMat a(n, n, v_col, v_val, v_ptr);
+  std::string fk = c.str();
+  if(fk == "none") { DNone filter; solved_with_filter(kind, a, filter, c, o, n); }
+  else
+  {
+    DUnit filter(n);
+    auto idx = c.idxlist();
+    for(auto i : idx) filter.add(Index(i), 0.0);
+    solved_with_filter(kind, a, filter, c, o, n);
+  }
+  std::cout.rdbuf(old);
+}
+
 static void handle(const verif::Tokens& t, std::ostream& o)
 {
   Cur c(t);
   std::string op = c.str();
   if(op == "ctl") op_ctl(c, o);
   else if(op == "solve") op_solve(c, o);
+  else if(op == "solved") op_solved(c, o);
   else o << "BAD-OP";
 }
 
